@@ -99,7 +99,7 @@ def build_manager(cfg, rnd: random.Random, loads=None, small=False):
     else:
         m.set_geometry_constraints_rowwise(perimeter_spacing_ratio=round(u(0.6, 0.9), 2) if cfg["perimeter"] else None, max_spacing=round(u(10, 14), 1), min_spacing=round(u(5, 8), 1),
                                            spacing_step=0.5, max_rotation=rnd.choice([90.0, 45.0]), min_rotation=rnd.choice([-90.0, -45.0, 0.0]), rotate_step=rnd.choice([5.0, 15.0]),
-                                           property_boundary=copy.deepcopy(PROP), no_go_boundaries=copy.deepcopy(NOGO))
+                                           property_boundary=copy.deepcopy(PROP), no_go_boundaries=copy.deepcopy(NOGO) if rnd.random() < 0.6 else [])      # no no-go zone at all is a valid RowWise input
     # a system flow is shared by all boreholes of the field: keep the per-borehole flow in the usual range
     fr = round(u(0.1, 0.6), 3) if cfg["flow"] == "BOREHOLE" else round(u(6.0, 14.0), 2)
     m.set_design(flow_rate=fr, flow_type_str=cfg["flow"].lower() if rnd.random() < 0.5 else cfg["flow"])
@@ -548,6 +548,31 @@ def run_c18() -> int:
         d2["simulation"]["timestep"] = f("hybrid")
         vitems.append((vname + "-timestep", d2))
     vitems.append(("valid-base", base))
+    # the repository's own demo inputs as further bases: every geometry method and pipe arrangement, each valid as shipped and
+    # corrupted in the method / arrangement names and in the required keys of its own geometry schema
+    gmap_l = {"BIRECTANGLE": "geometric_bi_rectangle", "BIRECTANGLECONSTRAINED": "geometric_bi_rectangle_constrained", "BIZONEDRECTANGLE": "geometric_bi_zoned_rectangle",
+              "NEARSQUARE": "geometric_near_square", "RECTANGLE": "geometric_rectangle", "ROWWISE": "geometric_rowwise"}
+    seen_kinds = set()
+    for f in sorted((REPO / "demos").glob("*.json")):
+        try:
+            d = json.loads(f.read_text())
+            kind = (str(d["geometric_constraints"]["method"]).upper(), str(d["pipe"]["arrangement"]).upper())
+        except Exception:  # noqa: BLE001
+            continue
+        if kind in seen_kinds or kind[0] not in gmap_l:
+            continue
+        seen_kinds.add(kind)
+        tag = f"demo[{kind[0]},{kind[1]}]"
+        vitems.append((f"{tag}:as-shipped", d))
+        for sec, key, val in (("geometric_constraints", "method", "NOSUCHMETHOD"), ("geometric_constraints", "method", "Hexagon"), ("pipe", "arrangement", "TRIPLEUTUBE")):
+            d2 = copy.deepcopy(d)
+            d2[sec][key] = val
+            vitems.append((f"{tag}:{sec}.{key}={val}", d2))
+        for k in schemas[gmap_l[kind[0]]].get("required", []):
+            if k in d["geometric_constraints"] and k != "method":
+                d3 = copy.deepcopy(d)
+                del d3["geometric_constraints"][k]
+                vitems.append((f"{tag}:geometric_constraints.{k}:missing", d3))
     verdicts = parallel_map(_validate_inprocess, vitems, chunksize=4)
     nrej = 0
     for (name, d), v in zip(vitems, verdicts):
